@@ -144,7 +144,7 @@ def check(ctx):
     ctx.explanation = EXPLANATION
     ctx.trusted = ["the const evaluator executes the same MIR faithfully (rustc)", "rustc's const-qualification"]
     ctx.assumptions = ["NOT decided: acceptance by the const evaluator on the lattice of N and slice lengths; value agreement between const and run-time evaluation"]
-    cfgs = ["F0", "F1"] if ctx.tier == "quick" else ["F0", "F1", "F2"]
+    cfgs = ["F0", "F1", "F1N"] if ctx.tier == "quick" else ["F0", "F1", "F1N", "F2", "F0N", "F2N"]
     ctx.need(*cfgs)
     for cfg in cfgs:
         db = ctx.db(cfg)
